@@ -10,7 +10,7 @@ K-C01: a generated PROGRAM of typed remora statements is rendered as C++ TUs (co
 import json, os, re, subprocess, time
 from concurrent.futures import ThreadPoolExecutor
 from vlib import core
-from checks import c01gen, c01neg
+from checks import c01gen, c01neg, c01dir
 
 TRUST = ("Lean 4.33 kernel; axioms at most propext/Classical.choice/Quot.sound (audited per run by #audit_module); ")
 MANIFEST = dict(
@@ -200,16 +200,23 @@ def gen_program(ctx, calc, ncases, nstmts, maxdepth, use_sparse):
     return cases
 
 
-def render(cases, per_tu, dropped=()):
+def render(cases, per_tu, dropped=(), shared=False):
     """cases: [(init ops, [(k, op, src, info)])] -> (op-line cases, TUs, infos); a case is cut at
-    its first dropped statement"""
-    out, srcs, infos = [], [], []
+    its first dropped statement.  shared: a statement number may occur in several cases (directed
+    program: shape-independent statements run on many stores); its source is rendered once and a
+    dropped statement is skipped instead of cutting the case"""
+    out, srcs, infos, seen = [], [], [], set()
     for init, stmts in cases:
         ops = list(init)
         for (k, op, src, info) in stmts:
             if k in dropped:
+                if shared:
+                    continue
                 break
-            ops.append(op); srcs.append(src); infos.append(info)
+            ops.append(op); infos.append(info)
+            if not (shared and k in seen):
+                srcs.append(src)
+            seen.add(k)
         out.append(ops)
     tus = []
     for i in range(0, len(srcs), per_tu):
@@ -332,32 +339,63 @@ def run(ctx):
         ctx.cov["evaluations"] = ctx.cov.get("ops_compared", 0)
         ctx.cov["distinct_nontrivial"] = ctx.cov.get("corpus_cases", 0)
         return
-    # ---- 2. generated program
+    # ---- 2. directed program (aliasing proxy pairs, folds on sign classes, blocking constants)
+    directed, skipped = c01dir.directed_program(ctx, calc, ctx.quick)
+    ctx.cov["directed_combinations_rejected_as_not_in_library"] = skipped
+    run_program(ctx, "dir", directed, 30 if ctx.quick else 40, drv, shared=True)
+    if os.environ.get("C01_ONLY_DIRECTED"):   # development aid
+        ctx.cov["evaluations"] = ctx.cov.get("directed_evaluations", 0)
+        ctx.cov["distinct_nontrivial"] = ctx.cov.get("dir_statements_generated", 0)
+        return
+    # ---- 3. generated program
     program = gen_program(ctx, calc, ncases, nstmts, maxdepth, sparse_ok)
-    total = sum(len(st) for _, st in program)
+    run_program(ctx, "gen", program, per_tu, drv, shared=False)
+
+
+def run_program(ctx, tag, program, per_tu, drv, shared):
+    """compile a program in both configurations and compare it with the model, case by case"""
+    total = len({k for _, st in program for (k, _, _, _) in st})
+    base = "c01" if tag == "gen" else "c01-" + tag
+    name = "K-C01" if tag == "gen" else "K-C01-" + tag
     # statements the C++ compiler rejects (combinations the library cannot instantiate and the rule
     # table does not tell us about, e.g. mixed-orientation kernels) are dropped and counted
     dropped, rejected = set(), []
     for _ in range(6):
-        cases, tus, infos = render(program, per_tu, dropped)
-        res = compile_program(ctx, "c01-default", tus, [], rejected)
+        cases, tus, infos = render(program, per_tu, dropped, shared)
+        res = compile_program(ctx, f"{base}-default", tus, [], rejected)
         if not isinstance(res, list):
             break
         dropped |= set(res)
-    ctx.cov["statements_generated"] = total
-    ctx.cov["statements_rejected_by_compiler"] = len(dropped)
-    ctx.cov["compiler_rejections"] = rejected[:8]
+    pre = "" if tag == "gen" else tag + "_"
+    ctx.cov[pre + "statements_generated"] = total
+    ctx.cov[pre + "statements_rejected_by_compiler"] = len(dropped)
+    ctx.cov[pre + "compiler_rejections"] = rejected[:8]
     if len(dropped) * 5 > total:
-        ctx.broken("harness-build", "c01-default", f"{len(dropped)} of {total} generated statements do not compile: {rejected[:2]}")
+        ctx.broken("harness-build", f"{base}-default", f"{len(dropped)} of {total} generated statements do not compile: {rejected[:2]}")
         return
-    record_distribution(ctx, cases, infos)
-    ctx.sample({"case": cases[len(cases) // 2][-4:]})
+    if tag == "gen":
+        record_distribution(ctx, cases, infos)
+        ctx.sample({"case": cases[len(cases) // 2][-4:]})
+    else:
+        for inf in infos:
+            ctx.hist("directed_family", inf.get("family", "?"))
+            ctx.hist("directed_form", inf["form"])
+        ctx.cov["directed_evaluations"] = len(infos)
+        ctx.cov["directed_cases"] = len(cases)
     for cname, flags in CONFIGS:
-        exe = compile_program(ctx, f"c01-{cname}", tus, flags)
+        exe = compile_program(ctx, f"{base}-{cname}", tus, flags)
         if not exe or isinstance(exe, list):
             continue
-        core.correspond(ctx, f"K-C01[{cname}]", cases, [exe], [drv], classify, max_report=12,
-                        keep_prefix=sum(1 for o in cases[-1] if not o.startswith(("stmt", "red"))))
+        if shared:
+            # every case declares its own variables: keep its whole declaration prefix when shrinking
+            by_prefix = {}
+            for c in cases:
+                by_prefix.setdefault(sum(1 for o in c if not o.startswith(("stmt", "red"))), []).append(c)
+            for kp, cs in sorted(by_prefix.items()):
+                core.correspond(ctx, f"{name}[{cname}]/{kp}", cs, [exe], [drv], classify, max_report=12, keep_prefix=kp)
+        else:
+            core.correspond(ctx, f"{name}[{cname}]", cases, [exe], [drv], classify, max_report=12,
+                            keep_prefix=sum(1 for o in cases[-1] if not o.startswith(("stmt", "red"))))
 
 
 def replay(ctx, rep):
